@@ -281,6 +281,9 @@ def run(chk):
     cc = char_classes()
     tokeniser(chk, cc)
     classes_and_prosody(chk, cc)
+    # gap re-insertion (global and local mode) against the Lean class2tokens / class2tokensLocal (theorems C14_class2tokens(_local))
+    from props import align_common as ac
+    ac.class2tokens_checks(chk)
 
 
 def replay(chk, path):
